@@ -45,6 +45,13 @@ type WRes struct {
 	Reparse  string `json:"reparse,omitempty"`     // tree text of sen.Parse(Str) ("" when it does not parse)
 	ReparseE string `json:"reparse_err,omitempty"` // parse error
 	Rerun    string `json:"rerun,omitempty"`       // NewPlan(sen.Parse(Str)) executed on an equal fresh root
+	// the plan is not edited by executing it: Simplify()/String() after run 1 ("" = the same as before)
+	SimpAfter string `json:"simp_after,omitempty"`
+	StrAfter  string `json:"str_after,omitempty"`
+	// a second root (optional): the SAME *Plan, after its runs on the first root, executed on ANOTHER root,
+	// and a freshly built plan executed on an equal copy of that other root
+	Other      string `json:"other,omitempty"`
+	OtherFresh string `json:"other_fresh,omitempty"`
 }
 
 func recovered(f func()) (pan string) {
@@ -83,6 +90,10 @@ func freshRoot(rootText string) map[string]any { return mustTree(rootText).(map[
 func runCase(planText, rootText string) *WRes {
 	started := time.Now()
 	res := &WRes{}
+	root2Text := ""
+	if tab := strings.IndexByte(rootText, '\t'); tab >= 0 {
+		rootText, root2Text = rootText[:tab], rootText[tab+1:]
+	}
 	p, pan := freshPlan(planText)
 	if pan != "" {
 		res.NewPanic = pan
@@ -109,7 +120,23 @@ func runCase(planText, rootText string) *WRes {
 	if !res.SrcSame {
 		res.SrcAfter = srcAfter
 	}
+	if res.StrPanic == "" {
+		_ = recovered(func() {
+			if sa := render(p.Simplify()); sa != res.Simp {
+				res.SimpAfter = sa
+			}
+			if res.SimpAfter != "" { // String() is an unsorted rendering: only reported beside a changed Simplify()
+				res.StrAfter = p.String()
+			}
+		})
+	}
 	res.Run2, _ = execOnce(p, freshRoot(rootText))
+	if root2Text != "" {
+		res.Other, _ = execOnce(p, freshRoot(root2Text))
+		if po, pano := freshPlan(planText); pano == "" && po != nil {
+			res.OtherFresh, _ = execOnce(po, freshRoot(root2Text))
+		}
+	}
 	if p2, pan2 := freshPlan(planText); pan2 == "" && p2 != nil {
 		res.Fresh, _ = execOnce(p2, freshRoot(rootText))
 		// determinism is a statement about every run: repeat the execution (fresh plan, fresh equal root);
